@@ -11,7 +11,7 @@ LEVEL_TEXT = (
     "length threshold; both wrappers append exactly one provenance entry (name, args, kwargs) after the entries already recorded and set cfg.n_mazes to the new length. "
     "'Exactly those, in order' is the obligation that the keep-predicate the real comprehension / append loop computes agrees with the documented rule on every index "
     "(pyvc/filt.py). NOT decided by proof (arrays and records are values in the encoding, assumption A-alias): that the input dataset is left untouched and the result shares "
-    "nothing with it; remove_duplicates_fast, strip_generation_meta, collect_generation_meta and the config-driven application - all decided by the bounded stand-in: "
+    "nothing with it; strip_generation_meta, collect_generation_meta and the config-driven application - all decided by the bounded stand-in (remove_duplicates_fast is proved through the library contract of dict.fromkeys: the mazes not equal to an earlier maze, in order): "
     "every built-in filter and custom predicates against an oracle written from the statement, on datasets with planted exact/near duplicates, all-equal lengths and empty "
     "results; input snapshots before/after; provenance over sequences of up to three filters; from_config with recorded filters against manual application."
 )
@@ -29,6 +29,7 @@ PROVE = [
     (MD, "MazeDatasetFilters.cut_percentile_shortest"),
     (MD, "MazeDatasetFilters.truncate_count"),
     (MD, "MazeDatasetFilters.remove_duplicates"),
+    (MD, "MazeDatasetFilters.remove_duplicates_fast"),
     (MD, "MazeDataset.custom_maze_filter"),
 ]
 ASSUMPTIONS = ["max_count >= 0 for truncate_count (a negative count is python slice semantics, outside the documented rule)",
